@@ -1,4 +1,4 @@
-import NeumannModel.RaftWal.Lemmas
+import NeumannModel.RaftWal.LemmasRot
 /-
   C10 — Raft node restart never forgets a vote, a term or an acknowledged entry.
 
@@ -270,5 +270,88 @@ def toyDeser : List Nat → Option WalEntry
 example : ∀ r, toyDeser (toySer r) = some r := by
   intro r; cases r <;> try rfl
   case termAndVote t v => cases v <;> rfl
+
+/-! ### size limit and rotation of the WAL (`max_size_bytes` = 1 GiB, `auto_rotate`, as `with_wal` opens it)
+
+  Every theorem above speaks about `fileOf … dur`, ONE file holding every record the node ever wrote.
+  `RaftWal::append` keeps it that way only while the file stays within `max_size_bytes`
+  (`no_rotation_within_size_limit`); the first append that would exceed it renames the file to
+  `<wal>.1` and starts an empty one, and neither `replay` nor `RaftNode::with_wal` ever reads `<wal>.k`:
+  whatever the history was, a restart then sees exactly the records written since
+  (`rotation_recovers_only_the_new_record`) and the property fails
+  (`rotation_forgets_term_vote_log_witness`).  Nothing in raft.rs truncates or compacts the WAL, so every
+  node whose WAL has grown to 1 GiB is in this situation. -/
+
+/-- **Within the size limit there is no rotation**: appending the records `rs` of any history to a live
+    file that holds `d` leaves the single file `fileOf (d ++ rs)` the theorems above are about — as long
+    as that file is at most `max_size_bytes` long. -/
+theorem no_rotation_within_size_limit (maxSize maxRot : Nat) (old : List (List Nat)) (d rs : List WalEntry)
+    (h : (fileOf crc ser (d ++ rs)).length ≤ maxSize) :
+    walAppendAll crc maxSize maxRot { cur := fileOf crc ser d, rotated := old } (rs.map ser)
+      = { cur := fileOf crc ser (d ++ rs), rotated := old } :=
+  walAppendAll_fits crc ser maxSize maxRot old d rs h
+
+/-- **The append that crosses the limit makes a restart forget everything before it**: whatever the
+    live file held, afterwards it holds the new record only, recovery returns `from_entries [r]`, and
+    the old content sits in `<wal>.1`, which nothing reads. -/
+theorem rotation_recovers_only_the_new_record (h : GoodSer crc ser deser) (maxSize maxRot : Nat)
+    (w : WalFiles) (r : WalEntry) (hrot : w.cur.length + (encodeRec crc (ser r)).length > maxSize) :
+    let w' := walAppend crc maxSize maxRot w (ser r)
+    w'.cur = fileOf crc ser [r]
+      ∧ recoverBytes crc deser w'.cur = .ok (fromEntries [r]) 1 .clean
+      ∧ w'.rotated.head? = some w.cur := by
+  rw [walAppend_rotates crc maxSize maxRot w (ser r) hrot]
+  refine ⟨by simp [fileOf, encodeAll], recover_single crc ser deser h r, ?_⟩
+  have : max maxRot 1 = (max maxRot 1 - 1) + 1 := by omega
+  rw [this, List.take_succ_cons]; rfl
+
+/-- C10 for a node whose WAL rotates: after any crash-free history, what a restart recovers from the
+    live file satisfies the three obligations.  False — `rotation_forgets_term_vote_log_witness`. -/
+def restart_keeps_obligations_with_rotation : Prop :=
+  ∀ (maxSize maxRot id : Nat) (evs : List Event),
+    let σ := exec (initSys id) (evs.map Act.ev)
+    let w := walAppendAll wcrc maxSize maxRot {} (σ.dur.map toySer)
+    ∀ s n e, recoverBytes wcrc toyDeser w.cur = .ok s n e → SatB s σ.ghost = true
+
+/-- the history of the harness' directed case `rot.node` (there with the real 1 GiB limit): vote for n2
+    in term 5, entries 1 and 2 acknowledged, then entry 3 — whose record crosses the limit — acknowledged.
+    A restart comes back with term 0, no vote and the log [3]. -/
+def rotDemo : List Event :=
+  [.requestVote 5 2 0 0, .appendEntries 5 2 0 0 [(5, 11), (5, 12)], .appendEntries 5 2 2 5 [(5, 13)]]
+
+theorem rotation_forgets_term_vote_log_witness : ¬ restart_keeps_obligations_with_rotation := by
+  intro hall
+  have hw : walAppendAll wcrc 50 3 {} ((exec (initSys 0) (rotDemo.map Act.ev)).dur.map toySer)
+      = { cur := encodeRec wcrc (toySer (.logEntryFull 3 5 [3, 5, 13])) ++ [],
+          rotated := [encodeAll wcrc [[2, 5], [3, 5, 2], [7, 1, 5, 1, 5, 11], [7, 2, 5, 2, 5, 12]]] } := by
+    decide
+  have hg : GoodRec wcrc (fun p => (toyDeser p).isSome) (toySer (.logEntryFull 3 5 [3, 5, 13])) := by
+    refine ⟨by decide, by decide, by decide⟩
+  have hp := parse_cons wcrc (fun p => (toyDeser p).isSome) _ [] hg
+  rw [parse_nil] at hp
+  have := hall 50 3 0 rotDemo (fromEntries [.logEntryFull 3 5 [3, 5, 13]]) 1 .clean (by
+    rw [hw]
+    simp only [recoverBytes, hp]
+    rfl)
+  revert this
+  decide
+
+/-- what exactly is lost in that history: the node had acted in term 5, voted for n2 and acknowledged
+    entries 1..3; the restart has term 0, no vote, and entry 3 only -/
+example : (exec (initSys 0) (rotDemo.map Act.ev)).ghost.actedTerm = 5
+    ∧ (exec (initSys 0) (rotDemo.map Act.ev)).ghost.votes = [(5, 2)]
+    ∧ (⟨1, 5, 11⟩ : LogEntry) ∈ (exec (initSys 0) (rotDemo.map Act.ev)).ghost.acked
+    ∧ (⟨2, 5, 12⟩ : LogEntry) ∈ (exec (initSys 0) (rotDemo.map Act.ev)).ghost.acked
+    ∧ (restart 0 (fromEntries [.logEntryFull 3 5 [3, 5, 13]])).term = 0
+    ∧ (restart 0 (fromEntries [.logEntryFull 3 5 [3, 5, 13]])).votedFor = none
+    ∧ (restart 0 (fromEntries [.logEntryFull 3 5 [3, 5, 13]])).log = [⟨3, 5, 13⟩] := by decide
+/-- … and so it grants n3 the vote of term 5 it had already given to n2 -/
+example : (step (restart 0 (fromEntries [.logEntryFull 3 5 [3, 5, 13]])) (.requestVote 5 3 9 9)).reply
+    = .vote 5 true := by decide
+/-- the hypothesis of `no_rotation_within_size_limit` is satisfiable with a non-trivial history, and the
+    one of `rotation_recovers_only_the_new_record` by the next record of the same history -/
+example : (fileOf wcrc toySer ((exec (initSys 0) ((rotDemo.take 2).map Act.ev)).dur)).length = 49 := by decide
+example : (fileOf wcrc toySer ((exec (initSys 0) ((rotDemo.take 2).map Act.ev)).dur)).length
+    + (encodeRec wcrc (toySer (.logEntryFull 3 5 [3, 5, 13]))).length > 50 := by decide
 
 end Neumann.RaftWal.Props
